@@ -25,7 +25,7 @@ use std::time::Duration;
 pub struct C09;
 
 pub const HEADER_CELLS: usize = 5;
-const KINDS: u64 = 7;
+const KINDS: u64 = 9;
 
 fn kind_of(k: u64) -> WalFault {
     match k % KINDS {
@@ -35,7 +35,9 @@ fn kind_of(k: u64) -> WalFault {
         3 => WalFault::AppendPartial(950),
         4 => WalFault::SyncError,
         5 => WalFault::DiskFull,
-        _ => WalFault::CreateError,
+        6 => WalFault::CreateError,
+        7 => WalFault::AppendTornIo(120),
+        _ => WalFault::AppendTornIo(700),
     }
 }
 
@@ -84,7 +86,7 @@ impl Property for C09 {
         if tape.len() < HEADER_CELLS || tape[0] % 3 != 0 { return vec![]; }
         let mut out = Vec::new();
         let kinds_for = |k: &str| -> Vec<u64> {
-            match k { "append" => vec![0, 1, 2, 3, 5], "sync" => vec![4], "create" => vec![6], _ => vec![] }
+            match k { "append" => vec![0, 1, 2, 3, 5, 7, 8], "sync" => vec![4], "create" => vec![6], _ => vec![] }
         };
         let calls: Vec<String> = rep.sample.as_ref().and_then(|s| s["io_calls"].as_array().cloned()).unwrap_or_default()
             .iter().filter_map(|x| x.as_str().map(|s| s.to_string())).collect();
@@ -224,7 +226,7 @@ impl Property for C09 {
             });
             if straddle { rep.probe("batch_straddled_rotation"); }
         }
-        if fired.iter().any(|(_, f)| matches!(f, WalFault::AppendError | WalFault::AppendPartial(_) | WalFault::DiskFull)) { rep.probe("append_failed"); }
+        if fired.iter().any(|(_, f)| matches!(f, WalFault::AppendError | WalFault::AppendPartial(_) | WalFault::AppendTornIo(_) | WalFault::DiskFull)) { rep.probe("append_failed"); }
 
         // ---- liveness (fault-free runs only): every call resolves Ok
         if fired.is_empty() && plan.is_empty() {
